@@ -712,13 +712,6 @@ pub(crate) async fn invoke_shell_function(
 ) -> Result<ExecutionSpawnResult, error::Error> {
     let ast::FunctionBody(body, redirects) = &function.definition().body;
 
-    // Apply any redirects specified at function definition-time.
-    if let Some(redirects) = redirects {
-        for redirect in &redirects.0 {
-            interp::setup_redirect(context.shell, &mut context.params, redirect).await?;
-        }
-    }
-
     let positional_args = args.iter().map(|a| a.to_string());
 
     // Note that we're going deeper. Once we do this, we need to make sure we don't bail early
@@ -730,11 +723,29 @@ pub(crate) async fn invoke_shell_function(
         &context.params,
     )?;
 
+    // Apply any redirects specified at function definition-time. N.B. They are expanded in the
+    // function's own context -- `f() { ...; } > "$1"` names the function's first argument -- so
+    // this happens after entering it; a failure must still take the "leave" path below.
+    let mut redirect_error = None;
+    if let Some(redirects) = redirects {
+        for redirect in &redirects.0 {
+            if let Err(err) =
+                interp::setup_redirect(context.shell, &mut context.params, redirect).await
+            {
+                redirect_error = Some(err);
+                break;
+            }
+        }
+    }
+
     // A function executes within the current shell process and shares its caller's open files,
     // so the parameters are passed through by shared reference rather than cloned. This prevents
     // direct mutation of the caller's `ExecutionParameters` open-file table, though the function
     // may still change the shell's persistent open files via builtins (e.g. `exec`).
-    let result = body.execute(context.shell, &context.params).await;
+    let result = match redirect_error {
+        Some(err) => Err(err),
+        None => body.execute(context.shell, &context.params).await,
+    };
 
     // We've come back out, reflect it.
     context.shell.leave_function()?;
